@@ -621,6 +621,14 @@ func (ch c10) runCase(c *core.Ctx, envPlain, envAuth *hs.Env, k c10case, idx int
 	if over {
 		c.Count("probe_after_oversize_ok", 1)
 	}
+	if inCopy && k.Eff < 1<<22 {
+		// whatever ended the COPY (the client, or the server on an oversized / foreign message): the
+		// configured limit is the limit of the session afterwards as before
+		if _, ok := expect("oversized message", pg.Raw('Q', append(bytes.Repeat([]byte{'o'}, k.Eff), 0)), "EZ"); !ok {
+			return
+		}
+		c.Count("limit_checked_after_copy", 1)
+	}
 	c.Eval(k.sig(), nt)
 	if idx%97 == 0 {
 		c.Sample(map[string]any{"case": k.sig(), "server_output": trim(replyKinds(cl.C.Out()), 200)})
